@@ -12,7 +12,12 @@ func VH_C17_pooled_memory() {
 	kinds := []string{"samlp:LogoutRequest", "samlp:LogoutResponse", "samlp:Response"}
 	k := vChoice("root.kind", 3)
 	l := vhLogoutRoot(kinds[k], vhSigNone, "root")
-	enc := vEncodeDoc("wire", l.root, 1)
+	if k == 2 {
+		a := vhAssertionEl("c0", vhSigValid)
+		vAssume(a.ID != l.ID)
+		l.root.AddChild(a.el)
+	}
+	enc := vEncodeDoc("wire", l.root, vChoice("wire.mode", 2))
 	vConcurrently(4, func() {
 		switch k {
 		case 0:
@@ -24,5 +29,5 @@ func VH_C17_pooled_memory() {
 		}
 	})
 	vReach("ran", true)
-	vAssertModel("C17.no-pooled-memory-is-read-after-it-was-handed-back", vPoolUseAfterPut() == 0)
+	vAssertModel("C17,C02.no-pooled-memory-is-read-after-it-was-handed-back", vPoolUseAfterPut() == 0)
 }
